@@ -1,5 +1,6 @@
 import MlModel.Model.Strategy
 import MlModel.Lemmas.AggCore
+import MlModel.Lemmas.Rebatch
 /-!
 # Lemmas for C03: row-wise operator chains are flat-maps; flat semantics of stage lists;
 permutation invariance of lawful commutative aggregates; interleavings are permutations.
@@ -317,6 +318,25 @@ theorem runOps_rows (ops : List (Op E)) (h : ∀ o ∈ ops, RowsOK rows o) :
       simp only [hfr, List.flatMap_assoc]
 
 end Rows
+
+/-- the driver's re-batcher conserves rows (rows of a `Bat` = its elements): an instance of `RowsOK` -/
+theorem rebatchRows_rowsOK (t : Nat) : RowsOK (fun b : Bat => b) (.rebatch (rebatchRows t)) := by
+  intro xs
+  show (rebatchRows t xs).flatMap (fun b => b) = xs.flatMap (fun b => b)
+  simp only [List.flatMap_id']
+  unfold rebatchRows
+  split
+  · rfl
+  · rename_i ht
+    exact Rebatch.sliced_flatten (Nat.pos_of_ne_zero ht) _
+
+/-- a vectorised function applied to every row of a batch respects the row view -/
+theorem mapRows_rowsOK (g : Row → Row) : RowsOK (fun b : Bat => b) (.row fun b => [b.map g]) :=
+  ⟨fun r => [g r], fun e => by
+    show ([e.map g].flatMap fun b => b) = e.flatMap fun r => [g r]
+    induction e with
+    | nil => rfl
+    | cons r e ih => simp_all [List.flatMap_cons]⟩
 
 /-! ## the library metrics of the driver are lawful -/
 
